@@ -12,6 +12,7 @@ import (
 	"errors"
 	"flag"
 	"fmt"
+	"io"
 	"net"
 	"net/http"
 	"net/http/httptest"
@@ -27,6 +28,7 @@ import (
 	"github.com/google/mtail/internal/exporter"
 	"github.com/google/mtail/internal/metrics"
 	"github.com/google/mtail/internal/metrics/datum"
+	"github.com/google/mtail/internal/mtail"
 	"github.com/google/mtail/verif/ev"
 	"github.com/prometheus/client_golang/prometheus"
 	"github.com/prometheus/client_golang/prometheus/promhttp"
@@ -354,6 +356,9 @@ func TestC12(t *testing.T) {
 	if r.Violations() == 0 {
 		concurrentAttempts(t, r, nil)
 	}
+	if r.Violations() == 0 {
+		stalledClient(t, r)
+	}
 	// the same with an unrepresentable item in the store, so that the
 	// exporters' rejection paths run while writers queue for the locks
 	for _, kind := range []string{"non-utf8-label-value", "invalid-key-name", "key-named-prog", "invalid-metric-name"} {
@@ -361,6 +366,70 @@ func TestC12(t *testing.T) {
 			concurrentAttempts(t, r, &fault{Exporter: "all", Kind: kind, Metric: 1, LabelSet: 1, M: 3, L: 3})
 		}
 	}
+}
+
+// stalledClient: a real server (options as the binary sets them: debug and
+// info endpoints on) and a client that requests /varz, reads the beginning of
+// a response larger than the socket buffers and then neither reads on nor
+// disconnects. The attempt must not pin the metric: a write-locking update of
+// it completes (the server gives up on the client). Judged by the stall
+// oracle, not by a clock.
+func stalledClient(t *testing.T, r *ev.Run) {
+	dir, _ := os.MkdirTemp(ev.Scratch(), "c12srv")
+	defer os.RemoveAll(dir)
+	_ = os.MkdirAll(filepath.Join(dir, "progs"), 0o755)
+	st := metrics.NewStore()
+	m := metrics.NewMetric("big", "p", metrics.Counter, metrics.Int, "k")
+	for i := 0; i < 30000; i++ {
+		d, _ := m.GetDatum(fmt.Sprintf("label-value-number-%06d-%s", i, strings.Repeat("x", 40)))
+		datum.SetInt(d, int64(i), time.Unix(1000, 0))
+	}
+	if err := st.Add(m); err != nil {
+		t.Fatal(err)
+	}
+	sock := filepath.Join(dir, "http.sock")
+	ctx, cancel := context.WithCancel(context.Background())
+	defer cancel()
+	srv, err := mtail.New(ctx, st, mtail.ProgramPath(filepath.Join(dir, "progs")), mtail.BindUnixSocket(sock), mtail.HTTPDebugEndpoints, mtail.HTTPInfoEndpoints)
+	if err != nil {
+		r.Inconclusive("stalled-client phase: server start: " + err.Error())
+		return
+	}
+	runDone := make(chan struct{})
+	go func() { _ = srv.Run(); close(runDone) }()
+	var c net.Conn
+	for try := 0; try < 500 && c == nil; try++ {
+		if cc, err := net.Dial("unix", sock); err == nil {
+			c = cc
+		} else {
+			time.Sleep(2 * time.Millisecond)
+		}
+	}
+	if c == nil {
+		r.Inconclusive("stalled-client phase: cannot connect to the server's socket")
+		return
+	}
+	defer c.Close()
+	_, _ = c.Write([]byte("GET /varz HTTP/1.1\r\nHost: x\r\n\r\n"))
+	buf := make([]byte, 2048)
+	if n, err := io.ReadFull(c, buf); err != nil || !strings.Contains(string(buf[:n]), "big{") {
+		r.Inconclusive(fmt.Sprintf("stalled-client phase: the response did not start as expected (%v)", err))
+		return
+	}
+	// the client goes quiet here; the handler is in the middle of the metric
+	r.Guard("a write-locking update of a metric whose /varz export is stuck on a client that stopped reading", func() {
+		d, err := m.GetDatum("a-new-label")
+		if err == nil {
+			datum.IncIntBy(d, 1, time.Unix(2000, 0))
+		}
+	})
+	r.Eval(1)
+	r.Count("stalled_client_updates_completed", 1)
+	f := fault{Exporter: "http-varz-real-server", Kind: "client-stops-reading", M: 1, L: 30000}
+	r.Distinct(fmt.Sprintf("%+v", f))
+	c.Close()
+	cancel()
+	<-runDone
 }
 
 // concurrentAttempts: the same attempts (clean, cancelled, failing) while
